@@ -532,8 +532,9 @@ def main_check(check, tier=None):
         print(f"VIOLATION property={check.PROP} replay={path}")
         print(f"  class={cls} seen_in_runs={len(recs)} trace_len={len(tr)} detail={vv.get('detail')}")
         nviol += 1
-        if exit_code == 0:
-            exit_code = 1
+        # a violation that replayed is reported as such even if other runs of the batch ended in harness trouble
+        # (a tree that breaks the property can also drive runs into the step cap)
+        exit_code = 1
     for cls in new_classes[3:]:
         print(f"  (further unlisted violation class not minimised: {cls}, {len(by_class[cls])} runs)")
         nviol += 1
